@@ -145,7 +145,7 @@ def shared_generator_scenarios():
     return out
 
 
-def cache_scenarios():
+def cache_scenarios(cls='Derivative', dim=None):
     """Warm rule cache: another configuration (and a neighbouring step ratio) is evaluated first in the same
     interpreter."""
     from fractions import Fraction as Fr
@@ -156,15 +156,15 @@ def cache_scenarios():
             I = P.interp
             (m1, n1, o1, r1), (m2, n2, o2, r2) = first, second
             g1 = P.sym_generator('Min', ratio=r1, num_extrap=1)
-            obj1, x = P.build('Derivative', m1, o1, n=n1, step=g1)
+            obj1, x = P.build(cls, m1, o1, n=n1 if cls == 'Derivative' else None, step=g1, dim=dim)
             I.getattr(obj1, '_derivative')(x, (), {})
             g2 = P.sym_generator('Min', ratio=r2, num_extrap=1)
-            return P.build('Derivative', m2, o2, n=n2, step=g2)
+            return P.build(cls, m2, o2, n=n2 if cls == 'Derivative' else None, step=g2, dim=dim)
 
         def fresh(P):
             m2, n2, o2, r2 = second
             g2 = P.sym_generator('Min', ratio=r2, num_extrap=1)
-            return P.build('Derivative', m2, o2, n=n2, step=g2)
+            return P.build(cls, m2, o2, n=n2 if cls == 'Derivative' else None, step=g2, dim=dim)
         return history, fresh
     near = Fr(2) + Fr(1, 10 ** 9)
     combos = [
@@ -175,7 +175,71 @@ def cache_scenarios():
         (('complex', 3, 2, Fr(2)), ('complex', 7, 2, Fr(2))),
         (('central', 1, 4, 'r'), ('forward', 1, 3, 'r')),
     ]
+    if cls != 'Derivative':
+        near1 = Fr(8, 5) + Fr(3, 100)
+        combos = [(('central', None, 4, Fr(2)), ('central', None, 4, near)),
+                  (('central', None, 4, Fr(8, 5)), ('central', None, 4, near1)),
+                  (('forward', None, 2, Fr(8, 5)), ('backward', None, 2, Fr(8, 5))),
+                  (('forward', None, 2, Fr(2)), ('forward', None, 2, Fr(2) + Fr(1, 25))),
+                  (('central', None, 6, 'r'), ('forward', None, 3, 'r'))]
+    else:
+        combos.append((('central', 1, 4, Fr(8, 5)), ('central', 1, 4, Fr(8, 5) + Fr(1, 250))))
+        combos.append((('forward', 1, 2, Fr(3)), ('forward', 1, 2, Fr(3) + Fr(1, 250))))
     for first, second in combos:
         h, f = mk(first, second)
-        out.append(Scenario('warm cache: Derivative%s then Derivative%s' % (first, second), h, f, 'rule cache'))
+        out.append(Scenario('warm cache: %s%s then %s%s' % (cls, first, cls, second), h, f, 'rule cache'))
     return out
+
+
+def run_cache_scenarios(rep, repo, cls, dim, rule_id='R-CACHE'):
+    """Shared by the properties whose behaviour goes through the rule cache."""
+    from ..srcmodel import AnalysisError
+    rep.rule(rule_id, 'the rule used by a call does not depend on what was computed before in the same process: for each '
+             'warm-cache scenario (same parity / terms with another or a neighbouring step ratio, sibling rows of one cache entry) '
+             'the abstract result equals that of a cold interpreter', 4)
+    fd = repo.module('finite_difference')
+    for sc in cache_scenarios(cls, dim):
+        try:
+            run_scenario(rep, repo, sc, rule_id, 'finite_difference.LogRule.rule', fd.relpath)
+        except AnalysisError as exc:
+            rep.undecided(rule_id, 'finite_difference.LogRule.rule', exc, sc.name)
+
+
+def check_cache_seed(rep, repo, rule_id='R-CACHE-SEED'):
+    """The rule cache at import time: empty, or every pre-seeded entry is the inverse of the moment matrix of its key."""
+    from ..ndarr import concrete_real
+    rep.rule(rule_id, 'the process wide rule cache is empty at import or every pre-seeded entry equals '
+             'pinv(_fd_matrix(*key)) (tolerance 1e-6 for decimal literals)', 1)
+    fd = repo.module('finite_difference')
+    P = Pipeline(repo)
+    P.clear_cache()
+    init = dict(P._cache_init)
+    problems = []
+    I = P.interp
+    for key, val in init.items():
+        try:
+            ratio, parity, nterms = key
+            M = I.getattr(I.get_global('finite_difference', 'LogRule'), '_fd_matrix')(ratio, parity, nterms)
+            W = val if isinstance(val, Arr) else None
+            if W is None or W.shape != M.shape:
+                problems.append('%r: not a matrix of the shape of its moment matrix' % (key,))
+                continue
+            n = M.shape[0]
+            done = False
+            for a in range(n):
+                for b in range(n):
+                    s_ = 0
+                    for m in range(n):
+                        s_ = s_ + W[a, m] * M[m, b]
+                    c = concrete_real(s_)
+                    if c is None or abs(c - (1 if a == b else 0)) > 1e-6:
+                        problems.append('%r: seeded entry is not the inverse of its moment matrix: (W*M)[%d,%d] = %r' % (key, a, b, s_))
+                        done = True
+                        break
+                if done:
+                    break
+        except (InterpRaise, ValueError, TypeError) as exc:
+            problems.append('%r: %s' % (key, exc))
+    rep.check(not problems, rule_id, 'finite_difference.FD_RULES', fd.relpath,
+              {'entries_at_import': len(init), 'problems': problems[:3]},
+              'empty at import, or every entry == pinv(_fd_matrix(*key))', 'import time', key='cache-seed')
